@@ -31,10 +31,15 @@ Cells == {"op.DefaultEndpoints", "op.DefaultSupportedClaims", "op.DefaultSupport
           \* what it has cached keeps serving a token of the first key while the JWKS endpoint is down
           "sharedKeySet.servesFromCache",
           \* the exported package-level error values of pkg/op and pkg/oidc (sentinels handed to every caller)
-          "packageLevelErrors"}
+          "packageLevelErrors",
+          \* two providers configured with the same (deprecated, absolute) UserFormURL: the verification_uri of a device authorization
+          \* response is that URL - without anything left over from an earlier response of either provider
+          "userFormProviderB.verificationURI",
+          \* a url.Values the caller hands to rp.ClientCredentials as endpointParams (and keeps using for other relying parties)
+          "callerEndpointParams"}
 \* cells that have one right value at any time (o.unhealthy lists those that do not show it after the program)
 Healthy == {"callerInterceptorChain", "routerA2.interceptorOrder", "providerA.tokenSignature", "providerB.tokenSignature",
-            "dynProvider.tenantA.ownHint", "dynProvider.tenantB.ownHint", "dynProvider.tenantB.foreignHint", "sharedKeySet.servesFromCache"}
+            "dynProvider.tenantA.ownHint", "dynProvider.tenantB.ownHint", "dynProvider.tenantB.foreignHint", "sharedKeySet.servesFromCache", "userFormProviderB.verificationURI"}
 
 Ops == {"op.NewProvider", "op.NewProvider+WithCustomAuthEndpoint", "op.NewProvider+WithCustomTokenEndpoint", "op.NewProvider+WithCustomIntrospectionEndpoint",
         "op.NewProvider+WithCustomUserinfoEndpoint", "op.NewProvider+WithCustomRevocationEndpoint", "op.NewProvider+WithCustomEndSessionEndpoint",
@@ -47,7 +52,8 @@ Ops == {"op.NewProvider", "op.NewProvider+WithCustomAuthEndpoint", "op.NewProvid
         \* verifications through the shared key set: a token of the first key, a stranger's token under an unknown key id, a token without key id
         "keySet.verify(good)", "keySet.verify(unknownKid)", "keySet.verify(noKid)",
         \* an implicit-flow callback at a provider whose signing key does not fit the algorithm it announces (the signer cannot be created)
-        "brokenSignerProvider.implicitCallback"}
+        "brokenSignerProvider.implicitCallback",
+        "userFormProviderA.deviceAuthorization", "userFormProviderB.deviceAuthorization", "rp.ClientCredentials(jwtProfileRP, callerParams)"}
 
 \* what the library promises to write on shared cells
 WriteSet(op) == {}
